@@ -1,4 +1,5 @@
 """C09 - generated pybind11 code is well-formed C++ (Engine E)."""
+from .. import rules_inst as RN
 from .. import rules_flow as RF
 from .. import rules_pybind as RP
 from .. import rules_xml as RX
@@ -41,6 +42,7 @@ def run(ctx, rep):
     rep.run(RI.rule_typenames_are_keys, ctx, rep, "W5")
     rep.run(RA.rule_mutate_only_fresh, ctx, rep, "W5", "gtwrap/template_instantiator", P1_EXEMPT, min_sites=20)
     rep.run(RP.rule_submodule_once, ctx, rep, "W6")
+    rep.run(RN.rule_typedef_yields_one_instantiation, ctx, rep, "W18")
     rep.run(RP.rule_boost_export_name, ctx, rep, "W7")
     rep.run(RI.rule_cpp_spelling_not_flattened, ctx, rep, "W8")
     rep.run(RP.rule_value_slot_never_empty, ctx, rep, "W9")
